@@ -44,14 +44,18 @@ def cases():
 
 def run(tier):
     from ..adapters import gates as ga
+    from lightworks import qubit as q8
     chk = Check(PID, tier)
     th = tier == "thorough"
     rng = random.Random(chk.seed)
     allc = cases()
     swaps = [c for c in allc if c[0] == "SWAP"]
     rest = [c for c in allc if c[0] != "SWAP"]
+    wide = [("SWAP", 0, (lambda qa=qa, qb=qb: q8.SWAP(qa, qb)), [qa, qb], False, (qa, qb))
+            for qa, qb in (((0, 4), (2, 6)), ((0, 5), (2, 7)), ((1, 4), (3, 6)), ((4, 1), (6, 3)), ((7, 0), (3, 5)), ((0, 7), (1, 6)), ((2, 6), (0, 4)))]
     if not th:
-        swaps = rng.sample(swaps, 40)
+        swaps = rng.sample(swaps, 150)
+    swaps = swaps + wide
     recs = []
     meta = []
     for c in rest + swaps:
